@@ -118,3 +118,20 @@ Definition semi_run (c : semicfg) (rank_seed epoch_seed : Z) (draw : oracle) (ra
   | AssertFail => {| r_out := AssertFail; r_len := semi_len c; r_seeds := seeds; r_reqs := [] |}
   | Runaway => {| r_out := Runaway; r_len := semi_len c; r_seeds := seeds; r_reqs := [] |}
   end.
+
+(* ------------------------------------------------------------------ *)
+(* one SemiSampler OBJECT over several epochs: set_epoch(e) assigns     *)
+(* self.epoch, __iter__ builds its three generators afresh and assigns  *)
+(* no attribute (C12.Model.run_ops).  The value Tensor.random_() gives  *)
+(* on a fresh generator seeded with x is a function rnd x of x; it is   *)
+(* used for x = rank and for x = epoch.                                 *)
+(* ------------------------------------------------------------------ *)
+Definition se_set_epoch (c : semicfg) (e : Z) : semicfg :=
+  {| se_classes := se_classes c; se_L := se_L c; se_U := se_U c; se_mode := se_mode c; se_seed := se_seed c;
+     se_epoch := e; se_W := se_W c |}.
+
+Definition semi_run_rnd (c : semicfg) (rnd : Z -> Z) (draw : oracle) (rank : nat) : run :=
+  semi_run c (rnd (Z.of_nat rank)) (rnd (se_epoch c)) draw rank.
+
+Definition semi_object (c : semicfg) (rnd : Z -> Z) (draw : oracle) (rank : nat) (ops : list op) : list run :=
+  run_ops se_set_epoch (fun c' => semi_run_rnd c' rnd draw rank) c ops.
